@@ -298,10 +298,9 @@ def clause_e(ctx, P):
 def clause_f(ctx, P):
     fn = P.one("Zeroconf::exec_command_browse")
     # which parameter is cache_only?  by debug name
-    idx = None
-    for l in range(1, fn.argc + 1):
-        if fn.locals[l].get("name") == "cache_only":
-            idx = l
+    # the boolean parameter that is not the rerun flag
+    rf = rerun_flag_param(P, fn)
+    idx = param_index(fn, "cache_only", "bool", exclude=(rf,) if rf else ())
     ctx.require(idx is not None, "C13f.anchor", fn.name, fn.loc(), "parameter cache_only found")
     if idx is None:
         return
